@@ -102,10 +102,11 @@ func (f *recFilter) PreRequest(req *http.Request) (context.Context, error) {
 		}
 		keys = append(keys, k)
 	}
-	nseg := len(restli.GetResourcePathSegmentsFromContext(ctx))
+	segs := restli.GetResourcePathSegmentsFromContext(ctx)
 	r.mu.Lock()
 	r.filters = append(r.filters, "pre"+f.id)
-	r.seen = append(r.seen, fmt.Sprintf("%s|%s|%d|%s", m.String(), name, nseg, strings.Join(keys, ",")))
+	// the whole resource path (names and kinds of every segment from the root), not only its length
+	r.seen = append(r.seen, fmt.Sprintf("%s|%s|%d %v|%s", m.String(), name, len(segs), segs, strings.Join(keys, ",")))
 	r.mu.Unlock()
 	return nil, nil
 }
@@ -691,7 +692,7 @@ func main() {
 								}
 								for _, e := range exp {
 									if e.st == "routed" && e.node == res.obs.node && e.method == res.obs.method {
-										wantSeen := fmt.Sprintf("%s|%s|%d|%s", e.method, e.name, e.nseg, e.keys)
+										wantSeen := fmt.Sprintf("%s|%s|%d %v|%s", e.method, e.name, e.nseg, mt.tree.segmentsOf(e.node), e.keys)
 										for _, s := range res.rec.seen {
 											if s != wantSeen {
 												emitViolation("C05/filter-context", fmt.Sprintf("a filter saw %q, the routed facts are %q", s, wantSeen), cs)
